@@ -112,7 +112,19 @@ pub fn outcome_class(result: &str) -> String {
     }
 }
 
+/// the case being executed and when it started: a watchdog thread (main.rs) ends the process when one case
+/// runs for more than `HANG_SECS` (C02: "never … loop forever")
+pub static CURRENT: std::sync::Mutex<Option<(String, std::time::Instant)>> = std::sync::Mutex::new(None);
+pub const HANG_SECS: u64 = 30;
+
 pub fn exec(prop: &str, line: &str) -> CaseResult {
+    *CURRENT.lock().unwrap() = Some((line.to_string(), std::time::Instant::now()));
+    let r = exec_inner(prop, line);
+    *CURRENT.lock().unwrap() = None;
+    r
+}
+
+fn exec_inner(prop: &str, line: &str) -> CaseResult {
     let toks = match parse_line(line) {
         Ok(t) => t,
         Err(e) => return bad(line, &e),
